@@ -194,6 +194,19 @@ func c17(c *Ctx) {
 			one(s.bytes(), s.canon(nil), "boundary")
 		}
 	}
+	// (1b) declared payload lengths at the top of the 16-bit range (header + length crosses 65535): complete
+	// packets must decode, and a packet cut anywhere after its header must be "too short" - never a panic
+	for _, dt := range []uint8{0, 3, 4, 9} {
+		for _, bl := range []int{65505, 65506, 65509, 65510, 65517, 65518, 65534, 65535} {
+			s := randSpec(dt, bl)
+			b := s.bytes()
+			one(b, s.canon(nil), "huge")
+			hl := len(b) - bl
+			for _, n := range []int{hl, hl + 1, hl + 7, len(b) - 1} {
+				one(b[:n], "short", "huge-truncated")
+			}
+		}
+	}
 	// (2) every truncation length of packets with small payloads: must be reported too short
 	for dt := 0; dt < 16; dt++ {
 		for _, bl := range []int{0, 1, 5} {
